@@ -27,6 +27,11 @@ from common import Evidence, Verdicts, run_tlc, stage_spec, MachineryError
 
 PROP = "C20"
 PARAMS = {"p0": {}, "p1": {"q": "1", "n": "two"}, "p2": {"ü": "a b&c=d", "k": "é/ü?%20"}}
+class ScriptedFailure(Exception):
+    pass
+
+
+FAILURES = [RuntimeError, KeyError, IndexError, ScriptedFailure, OSError, ZeroDivisionError, AttributeError, LookupError, ValueError, TypeError]
 GETS = ["/a", "/b", "/boom"]
 POSTS = ["/a", "/c"]
 REQ_PATHS = ["/a", "/b", "/c", "/boom", "/zz"]
@@ -69,7 +74,9 @@ class WebLive:
                 pid = name
         self.calls.append({"route": path, "method": method, "params": pid, "tag": str(y)})
         if path == "/boom":
-            raise RuntimeError("handler failure (scripted)")
+            # "a handler that fails": the class of the failure varies from request to request
+            self.nboom = getattr(self, "nboom", 0) + 1
+            raise FAILURES[self.nboom % len(FAILURES)]("handler failure (scripted)")
         return f"{y}:{method}:{path}:{pid}"
 
     def hname(self, method, path):
